@@ -16,6 +16,10 @@ EML_NAMES = ["eml", "dataset", "title", "creator", "para", "markup", "literalLay
 # XML 1.0 characters except CR; control characters are illegal
 TEXT_CHARS = ["a", "b", "c", "Z", "0", "9", " ", " ", " ", "\t", "\n", "\xa0", "<", ">", "&", "\"", "'", "é", "ß", "Ж", "湖", "\U0001F600",
               "-", ".", ":", ";", "/", "]", "[", "=", "%", "#", "{", "}", "]]>", "&amp;", "e\u0301", "\u212b", "\u1100\u1161", "\ufb01", " ", "​", "�", "\x85", " "]
+# the rest of the ASCII punctuation, bidirectional controls, a byte-order mark and a soft hyphen inside text, values that are special
+# for Python rather than for XML, and text that spells a character or entity reference
+TEXT_CHARS += ["+", "?", "@", "!", "$", "*", "(", ")", ",", "|", "~", "^", "`", "\\", "_", "\u200f", "\u202e", "\ufeff", "\xad",
+               "None", "True", "nan", "1_000", "-0", "\u0661\u0662\u0663", "%20", "&#38;", "&#176;C", "&#xB0;", "&lt;", "&quot;", "&nbsp;"]
 ATTR_CHARS = [c for c in TEXT_CHARS if c not in ("\t", "\n", "\x85", " ")]
 
 
@@ -70,6 +74,12 @@ def random_doc(rng, size, names=None, p_comment=0.15, p_attr=0.4, p_ns=0.25, att
                 al = rng.choice(["lang", "space"]) if ap == "xml" else ncname(rng, 6)
                 val = ("preserve" if al == "space" else rng.choice(["en", "fr-CA"])) if ap == "xml" else \
                     "".join(rng.choice(ATTR_CHARS) for _ in range(rng.randint(0, 10)))
+                if ap not in (None, "xml") and rng.random() < 0.4:
+                    # the qualified attributes real documents carry, with values as editors leave them (padded, several blanks
+                    # between the tokens - what a value wrapped over two lines reads as)
+                    al = rng.choice(["schemaLocation", "type", "nil", "noNamespaceSchemaLocation"])
+                    val = rng.choice(["https://eml.ecoinformatics.org/eml-2.2.0   https://example.org/eml.xsd       urn:a  urn:b", " padded ", "true",
+                                      "xs:string", "a  b"])
                 if (ap, al) not in seen:
                     seen.add((ap, al))
                     attrs.append((ap, al, val))
